@@ -23,6 +23,21 @@ var Root = func() string {
 	return d
 }()
 
+// runTag names this invocation of a check: the pid of the top-level driver, inherited by the children it starts through the
+// environment. Two invocations of the same check (parallel sweeps) therefore never share a scratch file.
+var runTag, runTagOwner = func() (string, bool) {
+	if t := os.Getenv("VERIF_RUN_TAG"); t != "" {
+		return t, false
+	}
+	t := fmt.Sprint(os.Getpid())
+	os.Setenv("VERIF_RUN_TAG", t)
+	return t, true
+}()
+
+// RunDir is the scratch directory of this invocation of check id (logs of children, inputs written before they are sent, progress
+// files). The top-level driver removes it at the end of a run that needs no look.
+func RunDir(id string) string { return filepath.Join(Root, "run", id+"."+runTag) }
+
 // Run accumulates what one run of one check observed.
 type Run struct {
 	ID    string
@@ -338,6 +353,9 @@ func (r *Run) Finish() int {
 		fmt.Printf("INTERNAL-ERROR property=%s observed nothing (evaluations=%d distinct=%d)\n", r.ID, r.evaluations, len(r.distinct)+r.distinctN)
 		return 3
 	}
+	if runTagOwner && os.Getenv("VERIF_KEEP_RUN_DIR") == "" {
+		os.RemoveAll(RunDir(r.ID)) // nothing to look at: logs and scratch files of a silent run are not kept
+	}
 	return 0
 }
 
@@ -355,7 +373,7 @@ type progress struct {
 }
 
 func (r *Run) progressPath() string {
-	return filepath.Join(Root, "run", r.ID, "progress-"+r.Tier+".json")
+	return filepath.Join(RunDir(r.ID), "progress-"+r.Tier+".json")
 }
 
 // Checkpoint persists the counters so that a parent process can still write
